@@ -397,6 +397,9 @@ class LibMixin:
                 c = v.frozen_copy()
                 c.is_tuple = True
                 return c
+            if isinstance(v, GenList):
+                # a filtered list of symbolic length frozen into a tuple: the same view (it is never written)
+                return v
             raise Unsupported('tuple() of symbolic view')
         if n in ('set', 'frozenset'):
             if not args:
